@@ -124,6 +124,18 @@ CHECKS = {
         technique='symbolic execution of the real Python code (CrossHair/z3), per-condition solver verdict',
         engine='E1',
     ),
+    'C13': dict(
+        category='other',
+        text=('Bounded symbolic execution (CrossHair + z3) of the classes the real Parser emits for IF (2/3 arguments), IFS and IFERROR formulas, '
+              'nested (depth <= 2) and in operand/argument positions (+ * & % SUM ROUND, inside IFERROR); condition cells symbolic '
+              'Union[int, bool, None], value cells symbolic ints or one of the seven Excel error texts (symbolic index); branches that must not be '
+              'evaluated contain an expression that raises when evaluated. Oracle: lazy reference evaluation per formula.'),
+        design_ref='DESIGN.md section 6 / C13',
+        note=('27 formula shapes; deeper nests, array-valued branches and text conditions are outside the claim; one known finding (IFS is eager and '
+              'scans untaken pairs for errors) is listed in known_findings.json.'),
+        technique='symbolic execution of the real Python code (CrossHair/z3), per-condition solver verdict',
+        engine='E1',
+    ),
 }
 
 NOT_YET = {}   # filled below for every property without a check
